@@ -51,6 +51,8 @@ TEMPLATES = {
 
 POSITIONS = ["top", "if-body", "else-body", "elif-body", "while-body", "while-else", "for-body", "for-else", "after-loop",
              "after-return", "after-break", "after-continue", "while-true-else", "while-true-body", "if-const-body", "first-statement", "last-statement"]
+# dead AND nested: inside a compound statement that itself follows return / break / continue in the same statement list
+POSITIONS += [f"{t}>{inner}" for t in ("after-return", "after-break", "after-continue") for inner in ("if-body", "else-body", "while-body", "for-else")]
 
 
 def _subs(c):
@@ -65,6 +67,9 @@ def classes():
 
 
 def wrap(stmt, pos):
+    if ">" in pos:
+        outer, inner = pos.split(">")
+        return wrap(wrap(stmt, inner), outer)
     s = textwrap.indent(stmt, "    ")
     if pos == "top":
         return stmt
